@@ -197,12 +197,17 @@ def theorems_of(prop_file):
     return re.findall(r"^\s*Theorem\s+([A-Za-z0-9_']+)", txt, flags=re.M)
 
 
-def check_proofs(ctx, pid=None, extra_targets=()):
+def check_proofs(ctx, pid=None, extra_targets=(), extra_props=()):
     """Build Props/<pid>.vo, verify assumptions of every pinned theorem.  Returns (ok, detail).
-    Sets ctx.obligations / ctx.discharged / ctx.theorems."""
+    Sets ctx.obligations / ctx.discharged / ctx.theorems.
+    extra_props: further Props/<name>.v files whose pinned theorems are built, probed and counted with this
+    property's (e.g. ["System"], the composed request-path model checked inside C01)."""
     pid = pid or ctx.pid
     prop_v = os.path.join(COQ, "Props", pid + ".v")
     thms = theorems_of(prop_v)
+    for p in extra_props:
+        thms = thms + theorems_of(os.path.join(COQ, "Props", p + ".v"))
+    extra_targets = list(extra_targets) + ["Props/%s.vo" % p for p in extra_props if "Props/%s.vo" % p not in extra_targets]
     ctx.theorems = thms
     ctx.obligations = len(thms)
     ctx.discharged = 0
@@ -219,12 +224,14 @@ def check_proofs(ctx, pid=None, extra_targets=()):
     probe = os.path.join(ctx.scratch, "Assm_%s.v" % pid)
     with open(probe, "w") as f:
         f.write("From GPA Require Import %s.\n" % pid)
+        for p in extra_props:
+            f.write("From GPA.Props Require Import %s.\n" % p)
         for t in thms:
             f.write('Goal True. idtac "@@THM %s". Abort.\nPrint Assumptions %s.\n' % (t, t))
     rc, out, err = sh(["coqc", "-noglob", "-Q", COQ, "GPA", probe], timeout=900)
     if rc != 0 and "inconsistent assumptions" in (out + err):
         time.sleep(5)
-        ok2, _ = coq_make(ctx, ["Props/%s.vo" % pid])
+        ok2, _ = coq_make(ctx, ["Props/%s.vo" % pid] + list(extra_targets))
         rc, out, err = sh(["coqc", "-noglob", "-Q", COQ, "GPA", probe], timeout=900)
     if rc != 0:
         return False, "assumption probe failed: " + (out + err)[-1500:]
